@@ -106,7 +106,35 @@ def q_mget(ex, args, kwargs):
     raise Unsupported('mget on a non-dict')
 
 
+_UFS = {}
+
+
+def q_uf(ex, args, kwargs):
+    from . import models as M
+
+    name = args[0]
+    vals = [M.plain(a) for a in args[1:]]
+    terms = []
+    for v in vals:
+        k = ex.kind_of(v)
+        if k in ('int', 'bool'):
+            terms.append(zint(v))
+        elif k in ('bytes', 'bytearray'):
+            from .engine import zbytes
+
+            terms.append(zbytes(ex.as_bytes_value(v)))
+        else:
+            raise Unsupported(f'uf argument of kind {k}')
+    key = (name, tuple(str(t.sort()) for t in terms))
+    f = _UFS.get(key)
+    if f is None:
+        f = z3.Function(f'uf_{name}', *[t.sort() for t in terms], z3.IntSort())
+        _UFS[key] = f
+    return mk_int(f(*terms))
+
+
 SPEC_FORMS = {
+    C.uf: q_uf,
     C.mhas: q_mhas,
     C.mget: q_mget,
     C.at: q_at,
